@@ -41,6 +41,8 @@ package pflag
 //@   flag vacuity off
 //@   requires s != nil && ptyp != nil
 //@   modifies *
+//@   at call transform.NewAliasMangler(:
+//@     assert C14_the_dials_and_both_pflag_alias_tags_are_honoured: len(arg0) == 3 && cell(selem(arg0, 0), "string") == "dials" && cell(selem(arg0, 1), "string") == "dialspflag"
 //@   at call transform.NewTransformer(:
 //@     assert C14_C12_aliases_are_expanded_before_flattening: len(arg1) == 2 && isType(cell(selem(arg1, 0), "Iface"), "*transform.AliasMangler")
 //@          && isType(cell(selem(arg1, 1), "Iface"), "*transform.FlattenMangler")
